@@ -47,12 +47,26 @@ type Column struct {
 // Quotes reserved words and names that an unquoted identifier
 // cannot spell (upper case letters are folded to lower case
 // unless quoted, and inserts address columns by their exact name).
+// Quote returns s the way it has to be spelled as an identifier in
+// SQL text: as is when it is a plain lower case identifier, double
+// quoted when it is a reserved word or contains anything else
+// (upper case letters, a dash, a leading digit). [pgx.Identifier],
+// which COPY uses, always quotes: both name the same object.
+func Quote(s string) string {
+	return quote(s)
+}
+
 func quote(s string) string {
 	if _, ok := reservedWords[strings.ToLower(s)]; ok {
 		return strconv.Quote(s)
 	}
-	if s != strings.ToLower(s) {
-		return strconv.Quote(s)
+	for i, r := range s {
+		switch {
+		case r >= 'a' && r <= 'z', r == '_':
+		case r >= '0' && r <= '9' && i > 0:
+		default:
+			return strconv.Quote(s)
+		}
 	}
 	return s
 }
@@ -81,7 +95,7 @@ func (t Table) DDL() []string {
 	}
 	var res []string
 
-	createTable := fmt.Sprintf("create table if not exists %s(", t.Name)
+	createTable := fmt.Sprintf("create table if not exists %s(", quote(t.Name))
 	for i, col := range t.Columns {
 		createTable += fmt.Sprintf("%s %s", quote(col.Name), col.Type)
 		if i+1 == len(t.Columns) {
@@ -94,9 +108,9 @@ func (t Table) DDL() []string {
 
 	for _, cols := range t.Unique {
 		createIndex := fmt.Sprintf(
-			"create unique index if not exists u_%s on %s (",
-			t.Name,
-			t.Name,
+			"create unique index if not exists %s on %s (",
+			quote("u_"+t.Name),
+			quote(t.Name),
 		)
 		for i, cname := range cols {
 			createIndex += quote(cname)
@@ -118,9 +132,9 @@ func (t Table) DDL() []string {
 			}
 		}
 		createIndex := fmt.Sprintf(
-			"create index if not exists shovel_%s on %s (",
-			indexName,
-			t.Name,
+			"create index if not exists %s on %s (",
+			quote("shovel_"+indexName),
+			quote(t.Name),
 		)
 		for i, cname := range cols {
 			createIndex += quoteIndexCol(cname)
@@ -160,7 +174,7 @@ func (t Table) Migrate(ctx context.Context, pg Conn) error {
 	for _, c := range diff.Add {
 		var q = fmt.Sprintf(
 			"alter table %s add column if not exists %s %s",
-			t.Name,
+			quote(t.Name),
 			quote(c.Name),
 			c.Type,
 		)
